@@ -539,11 +539,12 @@ pub fn scenarios(thorough: bool) -> Vec<(Swarm, usize)> {
         (Swarm { label: "3pc-have-only+partial", owners: vec![own(3, &[0, 1, 2]), own(3, &[1])], may_close: vec![false, false], by_have: vec![true, false], ..base.clone() }, 14),
         // three peers, each the only owner of one piece
         (Swarm { label: "3pc-3peers-each-one", owners: vec![own(3, &[0]), own(3, &[1]), own(3, &[2])], may_close: vec![false, false, false], by_have: vec![false, false, false], ..base.clone() }, 10),
-        // two peers race for the same pieces (end game); one of them may leave at the very moment the
-        // other one's answer arrives
-        (Swarm { label: "3pc-two-seeders-race", owners: vec![own(3, &[0, 1, 2]), own(3, &[0, 1, 2])], may_close: vec![false, true], by_have: vec![false, false], races: true, ..base.clone() }, 9),
-        // the same with the manager's broadcasts held back per connection task: a peer can leave or
-        // finish before its task has seen that the other connection completed the piece
+        // two seeders race for the same pieces (end game) with the manager's broadcasts held back per
+        // connection task: a peer can leave or finish before its task has seen that the other
+        // connection completed the piece. (Simultaneous arrivals through batched events — `races` —
+        // are not part of the registered scenarios: with two channels of the manager ready at once
+        // the real select! picks at random, which no event order of the harness can pin down; the
+        // gate orders exactly the same interleavings explicitly.)
         (Swarm { label: "3pc-two-seeders-gated", owners: vec![own(3, &[0, 1, 2]), own(3, &[0, 1, 2])], may_close: vec![false, true], by_have: vec![false, false], gated: true, ..base.clone() }, 9),
         // a host that restarts with a new peer id while the client is still connected to its old
         // incarnation: the second announce lists the same address with another id
